@@ -13,6 +13,7 @@ import (
 // bytes are the length) when Framed, each complete record passes through Edit, and the
 // result becomes readable by the receiver in pieces of at most Seg(k) bytes.
 type Wire struct {
+	ClosedErr error // what Read returns after the reading end closed the stream (default net.ErrClosed; net.Pipe uses io.ErrClosedPipe)
 	mu   sync.Mutex
 	cond *sync.Cond
 
@@ -113,6 +114,9 @@ func (w *Wire) read(p []byte) (int, error) {
 	defer w.mu.Unlock()
 	for {
 		if w.rclosed {
+			if w.ClosedErr != nil {
+				return 0, w.ClosedErr
+			}
 			return 0, net.ErrClosed
 		}
 		if w.Cut >= 0 && len(w.Delivered) >= w.Cut {
